@@ -229,9 +229,17 @@ static void DropAllTables(sqlite3 *db)
 {
     int rc;
     char *err_msg = 0;
-    const char *dropAllObjectsSQL = "SELECT 'DROP TABLE IF EXISTS ' || name || ';' FROM sqlite_master WHERE type = 'table';";
+    char *drops = NULL;
+    sqlite3_stmt *stmt = NULL;
+    const char *dropAllObjectsSQL = "SELECT group_concat('DROP TABLE IF EXISTS \"' || name || '\";', ' ') FROM sqlite_master WHERE type = 'table' AND name NOT LIKE 'sqlite_%';";
+    /* Build the DROP statements first: a table cannot be dropped while sqlite_master is being read */
+    if(sqlite3_prepare_v2(db, dropAllObjectsSQL, -1, &stmt, 0) == SQLITE_OK && sqlite3_step(stmt) == SQLITE_ROW){
+        drops = sqlite3_mprintf("%s", (const char*)sqlite3_column_text(stmt, 0));
+    }
+    sqlite3_finalize(stmt);
     /* Execute SQL statement */
-    rc = sqlite3_exec(db, dropAllObjectsSQL, 0, 0, &err_msg);
+    rc = sqlite3_exec(db, drops, 0, 0, &err_msg);
+    sqlite3_free(drops);
     if(rc != SQLITE_OK){
         fprintf(stderr, "SQL error: %s\n", err_msg);
         sqlite3_free(err_msg);
